@@ -28,7 +28,7 @@ ASSUMPTIONS = ["port names and hardware addresses are unique among the ports "
                "that exist at the same time",
                "a statistics reply whose final part never arrives is simply "
                "never announced"]
-REQUIRED = ["port_status_in_one_read_with_the_end_of_the_handshake", "port_status_for_a_port_a_reply_under_way_reports_on", "port_histories", "views_compared", "renames", "deletes",
+REQUIRED = ["replies_of_very_many_parts", "port_status_in_one_read_with_the_end_of_the_handshake", "port_status_for_a_port_a_reply_under_way_reports_on", "port_histories", "views_compared", "renames", "deletes",
             "readds", "stale_name_lookups", "stats_histories",
             "multipart_events", "interleaved_histories", "sequential_pairs",
             "features_refreshes", "early_port_status",
@@ -525,6 +525,8 @@ def _run_stats_body (case, rep, fire, peer, got, other=None, other_got=None):
     if last:
       want = (r["type"], [i for p in r["parts"] for i in p])
       if len(r["parts"]) > 1: nt = True; rep.count("multipart_events")
+      if len(r["parts"]) > 16:
+        rep.count("replies_of_very_many_parts"); rep.maxi("parts_in_one_reply", len(r["parts"]))
       if len(new) != 1:
         fire("final part raised %d aggregated events%s" %
              (len(new), " (interleaved replies)" if case["interleaved"] else ""),
@@ -667,6 +669,9 @@ def split (ids, k, rng):
   return out
 
 
+many = [0]
+
+
 def gen_stats (rng, n):
   base = 1000
   for ci in range(n):
@@ -682,6 +687,12 @@ def gen_stats (rng, n):
         rng.shuffle(ids)
         if ids and rng.random() < 0.4: ids.insert(rng.randrange(len(ids) + 1), rng.choice(ids))
       k = rng.randrange(1, 7)
+      if rng.random() < 0.02 and st != 3:
+        # a reply of very many parts (a switch with a large table answers a
+        # flow-statistics request with hundreds of them)
+        ne = rng.choice([70, 300, 1100]); k = rng.choice([17, 65, 130, ne])
+        ids = list(range(base, base + ne)); base += ne + 1
+        many[0] += 1
       reqs.append(dict(type=st, xid=rng.choice([7, 8, 9, rng.getrandbits(32)]),
                        parts=split(ids, k, rng), complete=True))
     # distinct (xid, type) per outstanding request
